@@ -257,11 +257,103 @@ fn cmap_probes() -> Vec<Vec<u8>> {
     v
 }
 
-fn run_ep(ep: &str, bytes: &[u8], dict: &Value, want_dig: bool) -> Ran {
+/// Boundary codes of a ToUnicode CMap program (mirrors Adversary!BoundaryProbes): every hex string of 1-4 bytes as it
+/// stands, one below, one above, one byte longer, one byte shorter.
+fn boundary_probes(prog: &[u8]) -> Vec<Vec<u8>> {
+    let mut out = vec![];
+    let mut i = 0;
+    while i < prog.len() && out.len() < 400 {
+        if prog[i] == b'<' && prog.get(i + 1) != Some(&b'<') {
+            if let Some(j) = prog[i + 1..].iter().position(|&c| c == b'>') {
+                let inner = &prog[i + 1..i + 1 + j];
+                if inner.iter().all(|c| c.is_ascii_hexdigit() || c.is_ascii_whitespace()) {
+                    let nib: Vec<u8> = inner.iter().filter(|c| c.is_ascii_hexdigit()).map(|c| (*c as char).to_digit(16).unwrap() as u8).collect();
+                    if [2, 4, 6, 8].contains(&nib.len()) {
+                        let code: Vec<u8> = nib.chunks(2).map(|p| p[0] * 16 + p[1]).collect();
+                        let n = code.len();
+                        let v = code.iter().fold(0u64, |a, b| a * 256 + *b as u64);
+                        let m = 1u64 << (8 * n);
+                        let be = |x: u64| (0..n).rev().map(|k| ((x >> (8 * k)) & 0xFF) as u8).collect::<Vec<u8>>();
+                        out.push(code.clone());
+                        out.push(be((v + 1) % m));
+                        out.push(be((v + m - 1) % m));
+                        if n < 4 {
+                            let mut c = vec![0u8];
+                            c.extend_from_slice(&code);
+                            out.push(c);
+                        }
+                        if n > 1 {
+                            out.push(code[1..].to_vec());
+                        }
+                    }
+                }
+                i += j + 1;
+            }
+        }
+        i += 1;
+    }
+    out
+}
+
+/// Parse -> Use: what the Adversary's UseStep asks to be done with a loaded document, under the same guard.
+fn use_document(doc: &Document, uses: &[String]) -> String {
+    let has = |k: &str| uses.iter().any(|u| u == k);
+    let mut did = 0usize;
+    if has("streams.decompress") {
+        for o in doc.objects.values() {
+            if let Ok(s) = o.as_stream() {
+                let _ = s.decompressed_content();
+                let _ = s.get_plain_content();
+                did += 1;
+            }
+        }
+    }
+    let pages = doc.get_pages();
+    for (_, &pid) in pages.iter() {
+        if has("pages.content") {
+            let _ = doc.get_page_content(pid);
+            did += 1;
+        }
+        if has("pages.decode") {
+            let _ = doc.get_and_decode_page_content(pid);
+            did += 1;
+        }
+        if has("fonts.decode") {
+            if let Ok(fonts) = doc.get_page_fonts(pid) {
+                for (_, font) in fonts {
+                    let mut texts = cmap_probes();
+                    if let Ok(tu) = font.get_deref(b"ToUnicode", doc).and_then(Object::as_stream) {
+                        if let Ok(prog) = tu.get_plain_content() {
+                            texts.extend(boundary_probes(&prog));
+                        }
+                    }
+                    if let Ok(enc) = font.get_font_encoding(doc) {
+                        for t in &texts {
+                            let _ = Document::decode_text(&enc, t);
+                        }
+                    }
+                    did += 1;
+                }
+            }
+        }
+    }
+    if has("extract_text") {
+        let nums: Vec<u32> = pages.keys().copied().collect();
+        let _ = doc.extract_text(&nums);
+        let _ = doc.extract_text_chunks(&nums);
+        did += 1;
+    }
+    format!("used {did}")
+}
+
+fn run_ep(ep: &str, bytes: &[u8], dict: &Value, want_dig: bool, uses: &[String], probes: &[Vec<u8>]) -> Ran {
     match ep {
         "load" => {
             let r = Document::load_mem(bytes);
             let mut out = ran(&r);
+            if let Ok(d) = &r {
+                out.note = use_document(d, uses);
+            }
             if let (true, Ok(d)) = (want_dig, &r) {
                 out.dig = format!("{}", d.objects.len());
             }
@@ -273,12 +365,29 @@ fn run_ep(ep: &str, bytes: &[u8], dict: &Value, want_dig: bool) -> Ran {
             }
             out
         }
-        "incload" => ran(&IncrementalDocument::load_from(std::io::Cursor::new(bytes))),
-        "content" => ran(&Content::decode(bytes)),
+        "incload" => {
+            let r = IncrementalDocument::load_from(std::io::Cursor::new(bytes));
+            let mut out = ran(&r);
+            if let Ok(inc) = &r {
+                out.note = use_document(inc.get_prev_documents(), uses);
+            }
+            out
+        }
+        "content" => {
+            let r = Content::decode(bytes);
+            if let (Ok(c), true) = (&r, uses.iter().any(|u| u == "encode")) {
+                let _ = c.encode();
+            }
+            ran(&r)
+        }
         "textstr" => ran(&lopdf::decode_text_string(&Object::String(bytes.to_vec(), StringFormat::Literal))),
         "filter" => {
             let s = Stream::new(tla_to_dict(dict), bytes.to_vec());
-            ran(&s.decompressed_content())
+            let r = s.decompressed_content();
+            if uses.iter().any(|u| u == "plain_content") {
+                let _ = s.get_plain_content();
+            }
+            ran(&r)
         }
         "objstm" => {
             let mut s = Stream::new(tla_to_dict(dict), bytes.to_vec());
@@ -309,7 +418,10 @@ fn run_ep(ep: &str, bytes: &[u8], dict: &Value, want_dig: bool) -> Ran {
                 if !font.has(b"Encoding") {
                     font.set("Encoding", Object::Name(b"Identity-H".to_vec()));
                 }
-                cmap_probes()
+                // decode.generic: fixed code tables; decode.boundaries: the codes the Adversary derived from the program
+                let mut t = if uses.is_empty() || uses.iter().any(|u| u == "decode.generic") { cmap_probes() } else { vec![] };
+                t.extend(probes.iter().cloned());
+                t
             } else {
                 vec![bytes.to_vec()]
             };
@@ -382,6 +494,8 @@ fn worker_case(line: &str) -> String {
     }
     let dict = case.get("dict").cloned().unwrap_or(json!([]));
     let want_dig = case["want_dig"].as_bool().unwrap_or(false);
+    let uses: Vec<String> = case.get("use").and_then(Value::as_array).map(|a| a.iter().filter_map(|x| x.as_str().map(String::from)).collect()).unwrap_or_default();
+    let probes: Vec<Vec<u8>> = case.get("probes").and_then(Value::as_array).map(|a| a.iter().map(json_to_bytes).collect()).unwrap_or_default();
     let req_limit = case["req_limit"].as_u64().unwrap_or(u64::MAX >> 1) as usize;
     let live_limit = case["live_limit"].as_u64().unwrap_or(u64::MAX >> 1) as usize;
     let stack = case["stack_kb"].as_u64().unwrap_or(8192) as usize * 1024;
@@ -395,7 +509,7 @@ fn worker_case(line: &str) -> String {
     LIVE_LIMIT.store(base.saturating_add(live_limit), Relaxed);
     let t0 = Instant::now();
     let (ep2, b2, d2) = (ep.clone(), bytes, dict);
-    let h = std::thread::Builder::new().stack_size(stack).spawn(move || catch(|| run_ep(&ep2, &b2, &d2, want_dig)));
+    let h = std::thread::Builder::new().stack_size(stack).spawn(move || catch(|| run_ep(&ep2, &b2, &d2, want_dig, &uses, &probes)));
     let r = match h {
         Ok(h) => h.join().unwrap_or_else(|_| Err(("worker thread died".to_string(), String::new()))),
         Err(e) => {
@@ -766,7 +880,7 @@ fn cmap_seed(rng: &mut Rng) -> Vec<u8> {
             for _ in 0..n {
                 let lo = rng.below(200) as u32;
                 let len = 1 + rng.below(6) as u32;
-                match rng.below(4) {
+                match rng.below(5) {
                     0 => s.push_str(&format!("{} {} <0030>\n", code(lo), code(lo + len))),
                     1 => s.push_str(&format!("{} {} <0066006A>\n", code(lo), code(lo + len))),
                     2 => s.push_str(&format!("{} {} <D83DDE00>\n", code(lo), code(lo + len))),
@@ -785,7 +899,7 @@ fn cmap_seed(rng: &mut Rng) -> Vec<u8> {
 
 const PDF_TOKS: &[&str] = &["obj", "endobj", "stream", "endstream", "xref", "trailer", "startxref", "<<", ">>", "[", "]", "(", ")", "R", "%%EOF"];
 const CONTENT_TOKS: &[&str] = &["BI", "ID", "EI", "BT", "ET", "Tj", "TJ", "<<", ">>", "[", "]", "(", ")", "<", ">", "/", "%", "\\"];
-const CMAP_TOKS: &[&str] = &["beginbfchar", "endbfchar", "beginbfrange", "endbfrange", "begincodespacerange", "endcodespacerange", "endcmap", "begincmap",
+const CMAP_TOKS: &[&str] = &["<0041> ", "beginbfchar", "endbfchar", "beginbfrange", "endbfrange", "begincodespacerange", "endcodespacerange", "endcmap", "begincmap",
     "<", ">", "[", "]", "<<", ">>", "def", "end", "dict"];
 const A85_TOKS: &[&str] = &["z", "~>", "~", "u", "s8W-", "s8W-\"", "!", " ", "v"];
 const BIN_TOKS: &[&str] = &["\u{0}", "\u{1}", "\u{4}", "\u{5}", "\u{7f}"];
@@ -897,7 +1011,9 @@ fn seeds(args: &[String]) {
     }
     for _ in 0..n {
         out.put(&seed_rec("content", &content_seed(&mut rng), none.clone(), toks(CONTENT_TOKS), "content"));
-        out.put(&seed_rec("cmap", &cmap_seed(&mut rng), none.clone(), toks(CMAP_TOKS), "cmap"));
+        for _ in 0..3 {
+            out.put(&seed_rec("cmap", &cmap_seed(&mut rng), none.clone(), toks(CMAP_TOKS), "cmap"));
+        }
     }
     // a compressed ToUnicode stream
     out.put(&seed_rec("cmap", &zlib(&cmap_seed(&mut rng)), pairs(vec![("Filter", tname("FlateDecode"))]), toks(BIN_TOKS), "cmap.flate"));
@@ -1055,7 +1171,8 @@ fn bulk(args: &[String]) {
         let n = b.len() as u64;
         let tmo = ((3000 + n / 50 + 999) / 1000) * 1000;
         out.put(&json!({"id": first_id + i, "ep": if i % 5 == 4 { "incload" } else { "load" }, "hex": hex_of(&b), "dict": [], "src": format!("bulk:{tag}"),
-                        "muts": muts, "mclass": mc, "len": b.len(), "tmo_ms": tmo, "req_limit": (64u64 << 20) + 4096 * n.min(400000),
+                        "muts": muts, "mclass": mc, "len": b.len(), "tmo_ms": tmo,
+                        "use": ["streams.decompress", "pages.content", "pages.decode", "fonts.decode", "extract_text"], "req_limit": (64u64 << 20) + 4096 * n.min(400000),
                         "live_limit": (512u64 << 20) + 4096 * n}));
     }
     out.finish();
